@@ -167,7 +167,7 @@ fn load_contexts(dir: &str) -> Contexts {
         }
     }
     c.code.sort_by(|a, b| a.name.cmp(&b.name));
-    assert!(c.code.len() == 3 && !c.host_prelude.is_empty() && !c.tokens.is_empty() && c.typ.name == "type");
+    assert!(c.code.len() == 4 && !c.host_prelude.is_empty() && !c.tokens.is_empty() && c.typ.name == "type");
     c
 }
 
